@@ -1,5 +1,4 @@
 /-- translated from the source text of `fieldcompare/io/vtk/_encoders.py: Base64Encoder.encoded_bytes` -/
--- v0 = self, v1 = decoded_bytes
 def c05B64EncodedBytesSrc : Fc.PyLite.Fn := {
   name := "Base64Encoder.encoded_bytes"
   params := ["v0", "v1"]
